@@ -37,9 +37,9 @@ Scenarios == CASE MODE = "pads" -> PadScenarios
                [] MODE = "policy" -> PolicyScenarios
                [] OTHER -> PadScenarios \cup NegScenarios \cup PolicyScenarios       \* "all"
 
-\* the dense pad sets are used for the pad scenarios, {0, 511} for the negotiation / policy scenarios
+\* the dense pad sets are used for the pad scenarios; PadA,PadB in {0, 511} and PadC = PadD = 255 for the negotiation / policy scenarios
 PadsAB == IF sc \in PadScenarios THEN PADS_AB ELSE {0, 511}
-PadsCD == IF sc \in PadScenarios THEN PADS_CD ELSE {0, 511}
+PadsCD == IF sc \in PadScenarios THEN PADS_CD ELSE {255}
 
 ASSUME \A s \in Scenarios : ScOK(s)
 
